@@ -85,6 +85,22 @@ def owedRecipients (d : Denom) : List Incurred → Int
 def covered (declared base : Coins) (is : List Incurred) (ds : List Denom) : Bool :=
   ds.all fun d => decide (Coins.amountOf base d + totalIncurred d is ≤ Coins.amountOf declared d)
 
+/-- The additional fees of the TOP-LEVEL messages: what the mempool check can see without running
+anything. -/
+def topIncurred (cfg : Cfg) (top : List RMsg) : List Incurred := top.flatMap (incurredOf cfg)
+
+/-- What the mempool check — on arrival AND on every recheck after a commit, against the
+parameters and schedule in force at that moment — demands of the declared fee: per denom, floor
+gas price × gas limit plus the additional fees of the top-level messages.  A transaction that
+does not meet it "must be rejected and never charged". -/
+def admissible (cfg : Cfg) (declared : Coins) (gas : Nat) (top : List RMsg) (ds : List Denom) : Bool :=
+  covered declared (baseFee cfg.floor gas) (topIncurred cfg top) ds
+
+/-- **never more than declared**: `paid` (what the paying account lost to fees) is at most the
+declared fee in every denom. -/
+def withinDeclared (declared paid : Coins) (ds : List Denom) : Bool :=
+  ds.all fun d => decide (Coins.amountOf paid d ≤ Coins.amountOf declared d)
+
 /-- The fee-related balance change the property prescribes for account `a` when the transaction
 SUCCEEDS: the paying account loses the declared fee, recipients get their shares, the collector
 the rest. -/
